@@ -320,11 +320,46 @@ def _is_stdin_site(c: ast.Call) -> bool:
     return False
 
 
+class _Selected:
+    """A call whose callee is picked by `A if test else B`: the test plays the part of the guard."""
+
+    def __init__(self, call: ast.Call, test: ast.AST, tnode, label: str) -> None:
+        self.call, self.test, self.tnode, self.label = call, test, tnode, label
+        self.args, self.keywords, self.func = call.args, call.keywords, call.func
+        for a in ("lineno", "col_offset", "end_lineno", "end_col_offset"):
+            setattr(self, a, getattr(call, a, None))
+
+
+def _selected_callee(prog, fi: FuncInfo, c: ast.Call, n):
+    e = c.func
+    at = n
+    if isinstance(e, ast.Name):
+        defs = prog.flow(fi).reaching(n, e.id)
+        if len(defs) == 1 and defs[0].kind == "assign" and isinstance(defs[0].value, ast.IfExp):
+            e, at = defs[0].value, defs[0].node
+    if not isinstance(e, ast.IfExp):
+        return None
+    out = []
+    for br in (e.body, e.orelse):
+        r = prog.repo.resolve_expr(br, fi.module, fi) if isinstance(br, (ast.Name, ast.Attribute)) else None
+        out.append(r.qual if isinstance(r, FuncInfo) else None)
+    if out[0] is None or out[1] is None:
+        return None
+    return e.test, at, out[0], out[1]
+
+
 def _consumer_sites(ctx: Ctx, fi: FuncInfo, opt: str, callee_q: str, depth: int = 0):
     """Call sites of the consumer in fi, or in a helper that receives fi's `opt` unchanged under the same name."""
     prog = ctx.prog
     flow = prog.flow(fi)
     sites = [(fi, n, c) for n, c in flow.all_calls() if call_name(prog, fi, c) == callee_q]
+    # the consumer chosen by a conditional expression: f = A if opt else B; f(...)   /   (A if opt else B)(...)
+    for n, c in flow.all_calls():
+        sel = _selected_callee(prog, fi, c, n)
+        if sel is not None:
+            test, tnode, body_q, else_q = sel
+            if callee_q in (body_q, else_q):
+                sites.append((fi, n, _Selected(c, test, tnode, "T" if callee_q == body_q else "F")))
     if sites or depth >= 2:
         return sites
     for n, c in flow.all_calls():
@@ -364,9 +399,19 @@ def check_consumers(ctx: Ctx, options: tuple[str, ...] | None = None) -> None:
             continue
         for fi, n, c in sites:
             guards = direct_guards(prog, fi, n)
+            if isinstance(c, _Selected):
+                torg = origins(prog, fi, c.test, c.tnode)
+                ok = (torg == frozenset({("param", opt)}) and c.label == label) or (torg == frozenset({("not", ("param", opt))}) and c.label != label)
+                ctx.ob("R-CONSUMER", key, ok,
+                       f"the consumer is selected by `{norm(c.test)}`, which must be `{opt}` itself with this consumer on its {label}-arm", where(fi, c.call))
+                if fn_arg is None:
+                    continue
+                c = c.call
             mine = [g for g in guards if g[2] == frozenset({("param", opt)}) or g[2] == frozenset({("not", ("param", opt))})]
             ok = False
-            if len(mine) == 1:
+            if isinstance(c, _Selected):
+                pass
+            elif len(mine) == 1:
                 g = mine[0]
                 flipped = g[2] == frozenset({("not", ("param", opt))})
                 eff = {"T": "F", "F": "T"}[g[1]] if flipped else g[1]
@@ -387,11 +432,11 @@ def check_consumers(ctx: Ctx, options: tuple[str, ...] | None = None) -> None:
     for name in ("flowmark.linewrapping.line_wrappers:line_wrap_by_sentence", "flowmark.linewrapping.line_wrappers:line_wrap_to_width"):
         callee = repo.func(name)
         for fi, n, c in _consumer_sites(ctx, fm_entry, "semantic", name):
-            b = bind_call(callee, c)
+            b = bind_call(callee, c.call if isinstance(c, _Selected) else c)
             im = b.get("is_markdown")
             ctx.ob("R-CONSUMER", f"{fi.qual} -> {name} :: is_markdown", isinstance(im, ast.Constant) and im.value is True,
                    "Markdown formatting must build its line wrapper with is_markdown=True (line-start escaping, hard breaks, tag newlines)",
-                   where(fi, c))
+                   where(fi, c.call if isinstance(c, _Selected) else c))
     # list_spacing reaches the renderer constructor
     fm = repo.func("flowmark.formats.flowmark_markdown:flowmark_markdown")
     found = False
